@@ -223,15 +223,15 @@ Named == {1, 2, 3}
 LLit(v) == [e |-> "lit", v |-> v]
 LCall(m, a, args) == [e |-> "call", m |-> m, a |-> a, args |-> args]
 LGet(a, i) == [e |-> "get", a |-> a, i |-> i]
+LMiss == [e |-> "miss"]                                    \* m.nope on an object m that has no such member
 SExpr(x) == [op |-> "expr", x |-> x]                       \* print the value of x
 SSet(a, i, v) == [op |-> "set", a |-> a, i |-> i, v |-> v]  \* a[i] = v
+SInc(a, i) == [op |-> "inc", a |-> a, i |-> i]             \* print ++a[i]
 
 (* list state: the heap, which named arrays have been stored inside an array *)
 (* (aliased) and which of those changed their length afterwards (stale: what *)
 (* the copy shows is C09's alias question, not compared here)                *)
-(* pe: the statement being evaluated read an index past the end of an array  *)
-(* (value null, nothing changes: C09; the pinned code pads the array there)  *)
-LS(h, al, stl) == [h |-> h, aliased |-> al, stale |-> stl, pe |-> FALSE]
+LS(h, al, stl) == [h |-> h, aliased |-> al, stale |-> stl]
 LUpd(s, h2, stl2) == [s EXCEPT !.h = h2, !.stale = stl2]
 ER(s, res, status) == [s |-> s, res |-> res, status |-> status]
 LenChanged(s, id, h2) ==
@@ -263,9 +263,10 @@ Method(s, m, id, arg, dev) ==
 RECURSIVE Eval(_, _)
 Eval(s, e) ==
   CASE e.e = "lit" -> ER(s, e.v, "ok")
+    [] e.e = "miss" -> ER(s, Null, "ok")                      \* a missing member of an object: null, nothing changes
     [] e.e = "get" ->
          LET n == Len(s.h[Id(e.a)].items) IN
-         IF Norm(n, e.i) >= n THEN ER([s EXCEPT !.pe = TRUE], Null, "ok")   \* a read past the end: null, nothing changes (C09)
+         IF Norm(n, e.i) >= n THEN ER(s, Null, "ok")          \* a read past the end: null, nothing changes
          ELSE LET r == ListGet(s.h, Id(e.a), e.i) IN ER(s, r.res, r.status)
     [] e.e = "call" ->
          IF e.args = <<>> THEN Method(s, e.m, Id(e.a), Null, FALSE)
@@ -276,9 +277,10 @@ Eval(s, e) ==
 RECURSIVE EvalD(_, _, _)
 EvalD(s, e, last) ==
   CASE e.e = "lit" -> [r |-> ER(s, e.v, "ok"), last |-> last]
+    [] e.e = "miss" -> [r |-> ER(s, Null, "ok"), last |-> last]
     [] e.e = "get" ->
          LET n == Len(s.h[Id(e.a)].items) IN
-         IF Norm(n, e.i) >= n THEN [r |-> ER([s EXCEPT !.pe = TRUE], Null, "ok"), last |-> last]
+         IF Norm(n, e.i) >= n THEN [r |-> ER(s, Null, "ok"), last |-> last]
          ELSE LET r == ListGet(s.h, Id(e.a), e.i) IN [r |-> ER(s, r.res, r.status), last |-> last]
     [] e.e = "call" ->
          LET l1 == [last EXCEPT ![e.m] = Id(e.a)] IN
@@ -288,9 +290,17 @@ EvalD(s, e, last) ==
               ELSE [r |-> Method(ra.r.s, e.m, ra.last[e.m], ra.r.res, TRUE), last |-> ra.last]
 Last0 == [m \in {"push", "pop", "popfirst", "length", "contains", "sort"} |-> 0]
 
-Exec(s0, st, dev) ==
-  LET s == [s0 EXCEPT !.pe = FALSE] IN
-  IF st.op = "set" THEN
+Exec(s, st, dev) ==
+  IF st.op = "inc" THEN
+     \* ++a[i] on an existing element: stores num(element) + 1 and yields it
+     LET items == s.h[Id(st.a)].items
+         j == Norm(Len(items), st.i)
+     IN IF j < 0 THEN ER(s, Null, "error")
+        ELSE IF j >= Len(items) THEN ER(s, Null, "open")                       \* creation by ++: C09's
+        ELSE IF items[j + 1].t \in {"arr", "obj", "wild"} THEN ER(s, Null, "open")   \* arithmetic on containers: C05's
+        ELSE LET new == Num(NumOf(items[j + 1]) + 1)
+             IN ER([s EXCEPT !.h[Id(st.a)].items[j + 1] = new], new, "ok")
+  ELSE IF st.op = "set" THEN
      LET r == ListSet(s.h, Id(st.a), st.i, st.v) IN
      IF r.status # "ok" THEN ER(s, Null, r.status)
      ELSE ER(LUpd(s, r.h, LenChanged(s, Id(st.a), r.h)), Null, "ok")
